@@ -3,7 +3,7 @@
    case by comparing the model's own dense view with the per-pixel specification (Model/RunC03.v) and is a
    theorem below (C03_add_refines_dense and its lifts to a scanline and a destination row). *)
 From Coq Require Import ZArith Bool List.
-From TS Require Import Model.AlphaRuns Proofs.AlphaProofs Proofs.AlphaRefine Proofs.AlphaRefine2 Proofs.AlphaSpans.
+From TS Require Import Model.AlphaRuns Proofs.AlphaProofs Proofs.AlphaRefine Proofs.AlphaRefine2 Proofs.AlphaSpans Proofs.AALink Model.Walk Proofs.WalkProofs.
 Import ListNotations.
 Local Open Scope Z_scope.
 
@@ -99,3 +99,18 @@ Theorem C03_contrib_blit :
   forall x w y q, 0 <= x -> 1 <= w -> 0 <= y ->
   contrib (blit_h_args x w y) q = if cov x w q =? 4 then maxv_of y else 16 * cov x w q.
 Proof. exact contrib_blit. Qed.
+
+(* from edges to alpha (links C02's walker to the accumulator): a destination row whose four sub-scanlines carry balanced edge
+   lists sorted by rounded abscissa inside the clip.  The spans the walker emits are sorted, disjoint and inside the clip; fed
+   through blit_h, AlphaRuns does not panic, and pixel q ends within 1/16 of 255/16 x K, where K counts the 16 sample columns
+   of q (4 per sub-scanline) that the fill rule accepts *)
+Theorem C03_aa_row_alpha :
+  forall eo W Y xs0 xs1 xs2 xs3,
+  0 < W -> 0 <= Y -> row_good eo W xs0 -> row_good eo W xs1 -> row_good eo W xs2 -> row_good eo W xs3 ->
+  exists s' d, run_subrows (ar_new W) (row_calls Y (sub_spans eo xs0) (sub_spans eo xs1) (sub_spans eo xs2) (sub_spans eo xs3)) = Some s' /\
+    dense s' = Some d /\
+    forall q, 0 <= q < W -> exists a, getz d q = Some a /\
+      let inside xs := count4 (fun c => masked (wsum xs c) eo) (4 * q) 4 in
+      let K := inside xs0 + inside xs1 + inside xs2 + inside xs3 in
+      0 <= K <= 16 /\ 0 <= a <= 255 /\ Z.abs (16 * a - 255 * K) <= 16 /\ (K = 0 -> a = 0) /\ (K = 16 -> a = 255).
+Proof. exact aa_row_alpha. Qed.
